@@ -8,6 +8,6 @@ CONSTANTS
   ShapeSet = {1,2,3,4,5,6,7,8,9,10,11,12,13,14,15,16,17,18,19,20,21,22,23,24,25,26,27,28,29,30,31,32,33,34,35,36,37,38,39,40,41,42}
   PolSet = {0, 15, 9}
 SPECIFICATION Spec
-INVARIANTS TreeResolution PolicyReduction Functional Deterministic SpellingInvariant ReadBack ReadBackFile Bounded NoRecordWithoutTTL OpenOnlyIfAllowed
+INVARIANTS InitialOrigin TreeResolution PolicyReduction Functional Deterministic SpellingInvariant ReadBack ReadBackFile Bounded NoRecordWithoutTTL OpenOnlyIfAllowed
 PROPERTIES IncludeKeepsOrigin GenerateCount OneRecordPerRR OnlyAppends Sticky SelfIncludeStops
 CHECK_DEADLOCK FALSE
